@@ -183,6 +183,13 @@ emit_func_convert = template(
                     target = str(target) \
                         if target is __converted \
                         else __converted
+                    # The translation function might not have given
+                    # us a string
+                    if type(target) is encoded:
+                        target = decode(target)
+                    elif target is not None and \
+                            not isinstance(target, str):
+                        target = str(target)
                 else:
                     target = __markup()
 
@@ -1581,9 +1588,15 @@ class Compiler:
             msgid = ast.Constant(node.msgid)
 
         # emit the translation expression
+        # (the translation function might not give us a string)
         translation = template(
-            "__append(translate("
-            "msgid, mapping=mapping, default=default, domain=__i18n_domain, context=__i18n_context, target_language=target_language))",  # noqa:  E501 line too long
+            "__translation = translate("
+            "msgid, mapping=mapping, default=default, domain=__i18n_domain, context=__i18n_context, target_language=target_language)\n"  # noqa:  E501 line too long
+            "if type(__translation) is bytes: "
+            "__translation = decode(__translation)\n"
+            "if __translation is not None: __append("
+            "__translation if isinstance(__translation, str) "
+            "else str(__translation))",
             msgid=msgid,
             default=default,
             mapping=mapping)
